@@ -120,6 +120,7 @@ def objective(spec):
 # one names list, one value table and one value function for the whole process (format names_shared): the caller keeps the
 # same objects and changes the data in place between calls
 SHARED_DICT = {}
+SHARED_LIST = []
 SHARED_NAMES = []
 SHARED_VALUES = {}
 
@@ -151,6 +152,10 @@ def present(values, fmt):
         SHARED_VALUES.clear(); SHARED_VALUES.update(zip(nm, values))
         d = NamedValues(zip(nm, values)); d.names_list = list(nm)
         return SHARED_NAMES, shared_valueof, d
+    if fmt == "list_shared":
+        # ONE list object for the whole process, overwritten in place between calls
+        SHARED_LIST[:] = list(values)
+        return SHARED_LIST, None, None
     if fmt == "dict_shared":
         # ONE dict object for the whole process, updated in place between calls and passed as `items`
         nm = ["s%02d" % i for i in range(len(values))]
